@@ -27,15 +27,19 @@ def _fn(unit):
 
 
 def an_table(sub, payload, unit, tag, res):
-    key = unit
+    from pyvc.dump import definitional_equalities
+
+    tname = (payload.get("table_of") or {}).get(unit, unit)  # e.g. the multi-chunk unit against the one-chunk contract
+    key = (unit, tname)
     tc = _CHECKERS.get(key)
     if tc is None:
-        tc = _CHECKERS[key] = tables.TableChecker(sub, unit, f"{payload['prop']}/{unit}", function=_fn(unit))
+        tc = _CHECKERS[key] = tables.TableChecker(sub, tname, f"{payload['prop']}/{unit}", function=_fn(unit))
     tc.ses = sub
     tc.prefix = f"{payload['prop']}/{unit}"
     only = payload.get("only_locs")
     dump = res.extra.get("dump") or {}
-    tc.check_path(tag, res, dump, path_hyps(res.path), only=re.compile(only) if only else None)
+    tc.check_path(tag, res, dump, path_hyps(res.path) + definitional_equalities(res.path),
+                  only=re.compile(only) if only else None, sliced=payload.get("sliced", False))
 
 
 # ---------------------------------------------------------------------------------------------------
